@@ -83,7 +83,11 @@ pub trait Guard<F: PrimeField, CS: PolynomialCommitmentScheme<F>>: Sized {
         J: ExactSizeIterator<Item = &'a CS::VerifierParameters>,
         CS::VerifierParameters: 'a,
     {
-        assert_eq!(guards.len(), params.len());
+        // A batch whose guards and parameters do not match up cannot be
+        // verified.
+        if guards.len() != params.len() {
+            return Err(Error::OpeningError);
+        }
         guards
             .into_iter()
             .zip(params)
